@@ -184,6 +184,7 @@ pub fn run_jrnl(case: &Case) -> RunOutput {
         Ok::<(), String>(())
     });
     out.steps = sim.steps();
+    out.sim_micros = sim.inner.final_sim_micros.get();
     out.trace_hash = format!("{:016x}", sim.trace_hash());
     out.multi_choice_steps = sim.inner.multi_choice_steps.get();
     out.yields = sim.inner.yields.get();
